@@ -10,6 +10,7 @@ CONSTANTS FltIds = {f1, f2}
  WriteDirtyThrough = TRUE
  QauKeepsDirty = TRUE
  RoCheckSetOps = TRUE
+ RemarkWhenDirty = TRUE
 INVARIANT CountOK CInv
 PROPERTY Refines
 CONSTRAINT MCBound
